@@ -460,3 +460,483 @@ pub fn c14_base(seed: u64) -> Case {
     let ops = gen_ops(&mut rw, &mix);
     Case { seed, cfg: EngineCfg::default(), ops, check_model: true, ..Default::default() }
 }
+
+// ------------------------------------------------------------------------------------------ CONC
+
+use crate::conc::{COp, ConcCase, SchedSel};
+
+pub fn gen_sched(r: &mut Rng, n_threads: usize) -> SchedSel {
+    match r.below(10) {
+        0 => SchedSel::Serial,
+        1..=4 => SchedSel::Random { p_num: *r.pick(&[13u32, 51, 128]) },
+        5..=7 => {
+            let d = r.range(1, 3);
+            SchedSel::Pct { change_points: (0..d).map(|_| r.range(1, 120)).collect() }
+        }
+        _ => SchedSel::Hold { tid: r.below(n_threads as u64) as usize, nth: r.range(1, 40) },
+    }
+}
+
+fn uniq_tuple(tid: usize, k: usize) -> T {
+    int_tuple((tid * 10 + k) as i32 + 1, tid as i32)
+}
+
+/// C15 level 1: FilePersist alone, appends/flushes/compactions from 2-3 threads on 1-2 shards.
+pub fn c15_persist(seed: u64) -> ConcCase {
+    let mut rc = Rng::new(seed, P_CFG);
+    let mut rw = Rng::new(seed, P_WORK);
+    let nthreads = rw.range(2, 3) as usize;
+    let shards = if rw.chance(1, 2) { vec!["k:r".to_string()] } else { vec!["k:r".to_string(), "k:s".to_string()] };
+    let mut time = 1u64;
+    let mut threads = Vec::new();
+    for tid in 0..nthreads {
+        let n = rw.range(1, 3) as usize;
+        let mut ops = Vec::new();
+        let mut mine: Vec<(String, T)> = Vec::new();
+        for k in 0..n {
+            let shard = rw.pick(&shards).clone();
+            match rw.below(10) {
+                0..=4 => {
+                    let cnt = rw.range(1, 2) as usize;
+                    let mut ups = Vec::new();
+                    for j in 0..cnt {
+                        let t = uniq_tuple(tid, k * 2 + j);
+                        mine.push((shard.clone(), t.clone()));
+                        ups.push((t, time, 1i64));
+                    }
+                    time += 1;
+                    ops.push(COp::PAppend { shard, updates: ups });
+                }
+                5 => {
+                    if let Some((sh, t)) = mine.last().cloned() {
+                        ops.push(COp::PAppend { shard: sh, updates: vec![(t, time, -1)] });
+                        time += 1;
+                    } else {
+                        ops.push(COp::PFlush { shard });
+                    }
+                }
+                6..=7 => ops.push(COp::PFlush { shard }),
+                _ => ops.push(COp::PCompact { shard }),
+            }
+        }
+        threads.push(ops);
+    }
+    let mut cfg = swarm_cfg(&mut rc, true);
+    cfg.buffer_size = *rc.pick(&[1usize, 2, 3, 10000]);
+    cfg.num_threads = 1;
+    let mut rs = Rng::new(seed, 9);
+    ConcCase { seed, cfg, level: "persist".into(), setup: vec![], threads, sched: Some(gen_sched(&mut rs, nthreads)), sched_seed: rs.next(), ..Default::default() }
+}
+
+/// Engine-level concurrent histories: writers on overlapping tuples, maintenance, readers.
+/// `flavour`: 0 = C15 (writes + maintenance), 1 = C20 (batches + readers + rules), 2 = C17b (insert || drop || re-create), 3 = C19b (incremental readers)
+pub fn conc_engine(seed: u64, flavour: u64) -> ConcCase {
+    let mut rc = Rng::new(seed, P_CFG);
+    let mut rw = Rng::new(seed, P_WORK);
+    let kg = if flavour == 2 { "x".to_string() } else { "default".to_string() };
+    let rel = "r".to_string();
+    let shared_tuples: Vec<T> = (0..3).map(|i| int_tuple(i + 1, (i * 7 + 2) % 5)).collect();
+    let mut setup = Vec::new();
+    if flavour == 2 {
+        setup.push(COp::CreateKg { kg: kg.clone() });
+        setup.push(COp::CreateKg { kg: "xy".into() });
+        setup.push(COp::Insert { kg: "xy".into(), rel: rel.clone(), tuples: vec![int_tuple(7, 7)] });
+    }
+    if rw.chance(1, 2) {
+        setup.push(COp::Insert { kg: kg.clone(), rel: rel.clone(), tuples: vec![shared_tuples[0].clone()] });
+    }
+    if flavour == 1 && rw.chance(1, 2) {
+        setup.push(COp::RegisterRule { kg: kg.clone(), text: "d(X, Y) <- r(X, Y)".into() });
+    }
+    let nthreads = rw.range(2, 3) as usize;
+    let mut threads = Vec::new();
+    let mut fresh = 100;
+    for tid in 0..nthreads {
+        let n = rw.range(1, 3) as usize;
+        let mut ops = Vec::new();
+        let role = match flavour {
+            1 => {
+                if tid == 0 {
+                    0
+                } else {
+                    rw.below(2)
+                }
+            } // writer / reader
+            3 => {
+                if tid == 0 {
+                    1
+                } else {
+                    0
+                }
+            }
+            _ => 0,
+        };
+        for _ in 0..n {
+            if role == 1 {
+                if flavour == 3 {
+                    ops.push(COp::ReadConsistent { kg: kg.clone(), rel: rel.clone() });
+                } else if rw.chance(1, 4) {
+                    ops.push(COp::Query { kg: kg.clone(), rel: if rw.chance(1, 2) { "d".into() } else { rel.clone() }, arity: 2 });
+                } else {
+                    ops.push(COp::Read { kg: kg.clone(), rel: rel.clone() });
+                }
+                continue;
+            }
+            let x = rw.below(20);
+            match (flavour, x) {
+                (_, 0..=6) => {
+                    // insert: overlapping tuples or a fresh multi-tuple batch
+                    let tuples = if flavour == 1 || rw.chance(1, 2) {
+                        let k = rw.range(2, 3);
+                        (0..k)
+                            .map(|_| {
+                                fresh += 1;
+                                int_tuple(fresh, tid as i32)
+                            })
+                            .collect()
+                    } else {
+                        vec![rw.pick(&shared_tuples).clone()]
+                    };
+                    ops.push(COp::Insert { kg: kg.clone(), rel: rel.clone(), tuples });
+                }
+                (_, 7..=10) => ops.push(COp::Delete { kg: kg.clone(), rel: rel.clone(), tuples: vec![rw.pick(&shared_tuples).clone()] }),
+                (0, 11..=13) => ops.push(COp::SaveAll),
+                (0, 14..=15) => ops.push(COp::CompactAll),
+                (0, _) => ops.push(COp::Read { kg: kg.clone(), rel: rel.clone() }),
+                (1, 11..=12) => ops.push(COp::RegisterRule { kg: kg.clone(), text: "d(X, Y) <- r(X, Y)".into() }),
+                (1, 13) => ops.push(COp::DropRule { kg: kg.clone(), name: "d".into() }),
+                (1, _) => ops.push(COp::Read { kg: kg.clone(), rel: rel.clone() }),
+                (2, 11..=14) => ops.push(COp::DropKg { kg: kg.clone() }),
+                (2, 15..=17) => ops.push(COp::CreateKg { kg: kg.clone() }),
+                (2, _) => ops.push(COp::Read { kg: kg.clone(), rel: rel.clone() }),
+                (_, 11..=13) => ops.push(COp::Read { kg: kg.clone(), rel: rel.clone() }),
+                (_, _) => ops.push(COp::SaveAll),
+            }
+        }
+        if flavour == 1 && role == 0 && rw.chance(2, 3) {
+            // read-your-writes
+            ops.push(COp::Read { kg: kg.clone(), rel: rel.clone() });
+        }
+        threads.push(ops);
+    }
+    if flavour == 2 && !threads.iter().flatten().any(|o| matches!(o, COp::DropKg { .. })) {
+        threads[0].insert(0, COp::DropKg { kg: kg.clone() });
+    }
+    let mut cfg = swarm_cfg(&mut rc, true);
+    cfg.num_threads = 1;
+    let mut rs = Rng::new(seed, 9);
+    ConcCase {
+        seed,
+        cfg,
+        level: "engine".into(),
+        setup,
+        threads,
+        sched: Some(gen_sched(&mut rs, nthreads)),
+        sched_seed: rs.next(),
+        incremental: if flavour == 3 { vec![kg] } else { vec![] },
+        ..Default::default()
+    }
+}
+
+// ------------------------------------------------------------------------------------------ HSC
+
+use crate::hsc::{tuple_lit, Effect, HCase, HOp};
+
+fn t64(a: i64, b: i64) -> T {
+    vec![V::I64(a), V::I64(b)]
+}
+
+fn gen_cmp(r: &mut Rng) -> (usize, String, i64) {
+    (r.below(2) as usize, r.pick(&[">", "<", ">=", "="]).to_string(), r.range(0, 4) as i64)
+}
+
+fn bulk_text(rel: &str, tuples: &[T]) -> String {
+    if tuples.len() == 1 {
+        format!("+{rel}{}", tuple_lit(&tuples[0]))
+    } else {
+        format!("+{rel}[{}]", tuples.iter().map(tuple_lit).collect::<Vec<_>>().join(", "))
+    }
+}
+
+/// C32: bulk/conditional write programs through the Handler with accurate-report checks.
+pub fn c32_case(seed: u64) -> HCase {
+    let mut rc = Rng::new(seed, P_CFG);
+    let mut rw = Rng::new(seed, P_WORK);
+    let n = rw.range(3, 10) as usize;
+    let kg = "default".to_string();
+    let mut ops = Vec::new();
+    for _ in 0..n {
+        let rel = rw.pick(&["r", "r", "s"]).to_string();
+        match rw.below(20) {
+            0..=7 => {
+                let k = rw.range(1, 4) as usize;
+                let tuples: Vec<T> = (0..k).map(|_| t64(rw.range(0, 4) as i64, rw.range(0, 3) as i64)).collect();
+                ops.push(HOp::Program { kg: kg.clone(), text: bulk_text(&rel, &tuples), effect: Effect::Insert { rel, tuples } });
+            }
+            8..=10 => {
+                let t = t64(rw.range(0, 4) as i64, rw.range(0, 3) as i64);
+                ops.push(HOp::Program { kg: kg.clone(), text: format!("-{rel}{}", tuple_lit(&t)), effect: Effect::Delete { rel, tuples: vec![t] } });
+            }
+            11..=13 => {
+                let (col, cmp, k) = gen_cmp(&mut rw);
+                let var = if col == 0 { "X" } else { "Y" };
+                ops.push(HOp::Program {
+                    kg: kg.clone(),
+                    text: format!("-{rel}(X, Y) <- {rel}(X, Y), {var} {cmp} {k}"),
+                    effect: Effect::CondDelete { rel, col, cmp, k },
+                });
+            }
+            14..=15 => {
+                let (col, cmp, k) = gen_cmp(&mut rw);
+                let var = if col == 0 { "X" } else { "Y" };
+                let add = rw.range(1, 2) as i64;
+                ops.push(HOp::Program {
+                    kg: kg.clone(),
+                    text: format!("-{rel}(X, Y), +{rel}(X, Z) <- {rel}(X, Y), {var} {cmp} {k}, Z = Y + {add}"),
+                    effect: Effect::Update { rel, col, cmp, k, add },
+                });
+            }
+            16 => ops.push(HOp::SaveAll),
+            17 => ops.push(HOp::CompactAll),
+            18 => ops.push(HOp::Query { kg: kg.clone(), text: format!("?{rel}(X, Y)") }),
+            _ => ops.push(HOp::Restart),
+        }
+    }
+    ops.push(HOp::Restart);
+    HCase { seed, cfg: swarm_cfg(&mut rc, true), idle_timeout_secs: 3600, ops, check_reports: true, use_async: rw.chance(1, 4) }
+}
+
+fn gen_typed_value(r: &mut Rng, ty: &str, conform: bool) -> V {
+    let good = match ty {
+        "int" => V::I64(r.range(0, 5) as i64),
+        "string" => V::Str(r.pick(&["a", "b", "c"]).to_string()),
+        "float" => V::F64((r.range(0, 5) as f64 + 0.5).to_bits()),
+        _ => V::Bool(r.chance(1, 2)),
+    };
+    if conform {
+        return good;
+    }
+    match ty {
+        "int" => V::Str("x".into()),
+        "string" => V::I64(7),
+        "float" => V::Str("f".into()),
+        _ => V::Str("t".into()),
+    }
+}
+
+/// C33: persistent / request-local schema declarations and conforming / non-conforming batches.
+pub fn c33_case(seed: u64) -> HCase {
+    let mut rc = Rng::new(seed, P_CFG);
+    let mut rw = Rng::new(seed, P_WORK);
+    let kg = "default".to_string();
+    let tys = ["int", "string", "float", "bool"];
+    let mut ops = Vec::new();
+    let mut declared: Vec<(String, Vec<(String, String)>)> = Vec::new();
+    let n = rw.range(3, 9) as usize;
+    let mut slot_made = false;
+    for _ in 0..n {
+        let rel = rw.pick(&["t", "u"]).to_string();
+        match rw.below(20) {
+            0..=4 => {
+                let cols = vec![("a".to_string(), rw.pick(&tys).to_string()), ("b".to_string(), rw.pick(&tys).to_string())];
+                let text = format!("+{rel}({})", cols.iter().map(|(c, t)| format!("{c}: {t}")).collect::<Vec<_>>().join(", "));
+                declared.retain(|(r, _)| r != &rel);
+                declared.push((rel.clone(), cols.clone()));
+                ops.push(HOp::Program { kg: kg.clone(), text, effect: Effect::Schema { rel, cols } });
+            }
+            5..=12 => {
+                // a batch against the declared schema (or against nothing)
+                let cols = declared.iter().find(|(r, _)| r == &rel).map(|(_, c)| c.clone()).unwrap_or_else(|| vec![("a".into(), "int".into()), ("b".into(), "int".into())]);
+                let k = rw.range(1, 3) as usize;
+                let mode = rw.below(3); // 0 all conform, 1 one bad, 2 all bad
+                let tuples: Vec<T> = (0..k)
+                    .map(|j| {
+                        let bad = mode == 2 || (mode == 1 && j == k - 1);
+                        let bad_col = rw.below(2) as usize;
+                        cols.iter().enumerate().map(|(ci, (_, ty))| gen_typed_value(&mut rw, ty, !(bad && ci == bad_col))).collect()
+                    })
+                    .collect();
+                if rw.chance(1, 4) {
+                    // the session insert path
+                    if !slot_made {
+                        ops.push(HOp::SessCreate { slot: 0, kg: kg.clone() });
+                        slot_made = true;
+                    }
+                    ops.push(HOp::SessInsert { slot: 0, rel, tuples });
+                } else {
+                    ops.push(HOp::Program { kg: kg.clone(), text: bulk_text(&rel, &tuples), effect: Effect::Insert { rel, tuples } });
+                }
+            }
+            13..=15 => {
+                // another client declares a request-local schema for the same relation
+                let cols = vec![("a".to_string(), rw.pick(&tys).to_string()), ("b".to_string(), rw.pick(&tys).to_string())];
+                let text = format!("{rel}({})", cols.iter().map(|(c, t)| format!("{c}: {t}")).collect::<Vec<_>>().join(", "));
+                ops.push(HOp::Program { kg: kg.clone(), text, effect: Effect::SessionSchema { rel, cols } });
+            }
+            16..=17 => ops.push(HOp::Restart),
+            18 => ops.push(HOp::SaveAll),
+            _ => ops.push(HOp::Query { kg: kg.clone(), text: format!("?{rel}(X, Y)") }),
+        }
+    }
+    ops.push(HOp::Restart);
+    HCase { seed, cfg: swarm_cfg(&mut rc, true), idle_timeout_secs: 3600, ops, check_reports: false, use_async: false }
+}
+
+const SESSION_RULES: &[&str] = &["sv(X, Y) <- f(X, Y)", "sv(X, Y) <- f(X, Z), f(Z, Y)", "sv(X, Y) <- f(X, Y), X < Y", "sv(X, Y) <- g(X, Y)", "sv(X, Y) <- f(X, Y), !g(X, Y)"];
+const QUERIES: &[&str] = &["?f(X, Y)", "?g(X, Y)", "?sv(X, Y)", "?f(X, Y), X > 1", "?pv(X, Y)", "?f(X, Y), g(Y, Z)"];
+
+/// C10a: sessions, stateless clients with request-local facts, a persistent writer and the reaper
+/// on the simulated clock, interleaved at request granularity.
+pub fn c10_case(seed: u64) -> HCase {
+    let mut rc = Rng::new(seed, P_CFG);
+    let mut rw = Rng::new(seed, P_WORK);
+    let kg = "default".to_string();
+    let idle = *rw.pick(&[30u64, 120, 3600]);
+    let n_sess = rw.range(2, 3) as usize;
+    let mut ops = Vec::new();
+    // some persistent base data and a persistent rule
+    ops.push(HOp::Program { kg: kg.clone(), text: bulk_text("f", &[t64(1, 2), t64(2, 3)]), effect: Effect::Insert { rel: "f".into(), tuples: vec![t64(1, 2), t64(2, 3)] } });
+    if rw.chance(1, 2) {
+        ops.push(HOp::Program { kg: kg.clone(), text: "+pv(X, Y) <- f(X, Y)".into(), effect: Effect::Rule { name: "pv".into(), text: "pv(X, Y) <- f(X, Y)".into() } });
+    }
+    for s in 0..n_sess {
+        ops.push(HOp::SessCreate { slot: s, kg: kg.clone() });
+    }
+    let n = rw.range(6, 16) as usize;
+    for _ in 0..n {
+        let slot = rw.below(n_sess as u64) as usize;
+        let base = 1000 * (slot as i64 + 1);
+        let own = |r: &mut Rng| t64(base + r.range(0, 3) as i64, base + r.range(0, 3) as i64);
+        match rw.below(24) {
+            0..=4 => {
+                let k = rw.range(1, 2);
+                let tuples: Vec<T> = (0..k).map(|_| own(&mut rw)).collect();
+                ops.push(HOp::SessInsert { slot, rel: rw.pick(&["f", "g"]).to_string(), tuples });
+            }
+            5 => {
+                let t = own(&mut rw);
+                ops.push(HOp::SessRetract { slot, rel: "f".into(), tuples: vec![t] });
+            }
+            6..=7 => ops.push(HOp::SessAddRule { slot, text: rw.pick(SESSION_RULES).to_string() }),
+            8..=13 => ops.push(HOp::SessQuery { slot, text: rw.pick(QUERIES).to_string() }),
+            14 => ops.push(HOp::SessExec { slot, text: ".session clear".into(), effect: Effect::None, clears_session: true }),
+            15 => {
+                // persistent write over a session connection
+                let t = t64(rw.range(1, 5) as i64, rw.range(1, 5) as i64);
+                ops.push(HOp::SessExec { slot, text: format!("+f{}", tuple_lit(&t)), effect: Effect::Insert { rel: "f".into(), tuples: vec![t] }, clears_session: false });
+            }
+            16..=17 => {
+                // stateless client with request-local facts and rules
+                let lt = t64(9000 + rw.range(0, 3) as i64, 9000 + rw.range(0, 3) as i64);
+                let rules = if rw.chance(1, 2) { vec![rw.pick(SESSION_RULES).to_string()] } else { vec![] };
+                ops.push(HOp::RequestLocal { kg: kg.clone(), facts: vec![(rw.pick(&["f", "g"]).to_string(), lt)], rules, query: rw.pick(QUERIES).to_string(), canon_rules: None });
+            }
+            18 => ops.push(HOp::Query { kg: kg.clone(), text: rw.pick(QUERIES).to_string() }),
+            19 => {
+                let t = t64(rw.range(1, 5) as i64, rw.range(1, 5) as i64);
+                if rw.chance(1, 2) {
+                    ops.push(HOp::Program { kg: kg.clone(), text: format!("+f{}", tuple_lit(&t)), effect: Effect::Insert { rel: "f".into(), tuples: vec![t] } });
+                } else {
+                    ops.push(HOp::Program { kg: kg.clone(), text: format!("-f{}", tuple_lit(&t)), effect: Effect::Delete { rel: "f".into(), tuples: vec![t] } });
+                }
+            }
+            20 => ops.push(HOp::Advance { secs: *rw.pick(&[10u64, 45, 200, 4000]) }),
+            21 => ops.push(HOp::Reap),
+            22 => ops.push(HOp::SessClose { slot }),
+            _ => ops.push(HOp::SessCreate { slot, kg: kg.clone() }),
+        }
+    }
+    let mut cfg = swarm_cfg(&mut rc, true);
+    cfg.num_threads = 1;
+    HCase { seed, cfg, idle_timeout_secs: idle, ops, check_reports: false, use_async: false }
+}
+
+const P_RULES: &[(&str, &str)] = &[
+    ("d0", "d0(X, Y) <- f(X, Y)"),
+    ("d0", "d0(X, Y) <- g(X, Y)"),
+    ("d1", "d1(X, Y) <- d0(X, Y), X < Y"),
+    ("d2", "d2(X, Y) <- d1(X, Z), f(Z, Y)"),
+    ("d2", "d2(X, Y) <- d0(X, Y), !g(X, Y)"),
+    ("tc", "tc(X, Y) <- f(X, Y)"),
+    ("tc", "tc(X, Y) <- tc(X, Z), f(Z, Y)"),
+    ("cnt", "cnt(X, count<Y>) <- f(X, Y)"),
+];
+const P_QUERIES: &[&str] = &["?d0(X, Y)", "?d1(X, Y)", "?d2(X, Y)", "?tc(X, Y)", "?tc(1, Y)", "?f(X, Y)", "?d0(X, Y), X > 1", "?cnt(X, N)"];
+
+/// C18 / C19a / C04: persistent rules (over base and over derived relations, recursive), base-fact
+/// histories, incremental maintenance switched on at a seeded step, probes after every change.
+/// flavour 0 = C18/C19 (incremental), 1 = C04 (registration order, engine history, inline permutations)
+pub fn c18_case(seed: u64, flavour: u64) -> HCase {
+    let mut rc = Rng::new(seed, P_CFG);
+    let mut rw = Rng::new(seed, P_WORK);
+    let kg = "default".to_string();
+    let n = rw.range(5, 14) as usize;
+    let enable_at = if flavour == 0 { rw.below(n as u64 / 2 + 1) as usize } else { usize::MAX };
+    let mut ops = Vec::new();
+    let fact = |r: &mut Rng| t64(r.range(1, 4) as i64, r.range(1, 4) as i64);
+    for i in 0..n {
+        if i == enable_at {
+            ops.push(HOp::EnableIncremental { kg: kg.clone() });
+        }
+        match rw.below(24) {
+            0..=5 => {
+                let rel = rw.pick(&["f", "f", "g"]).to_string();
+                let k = rw.range(1, 3);
+                let tuples: Vec<T> = (0..k).map(|_| fact(&mut rw)).collect();
+                ops.push(HOp::Program { kg: kg.clone(), text: bulk_text(&rel, &tuples), effect: Effect::Insert { rel, tuples } });
+            }
+            6..=7 => {
+                let rel = rw.pick(&["f", "g"]).to_string();
+                let t = fact(&mut rw);
+                ops.push(HOp::Program { kg: kg.clone(), text: format!("-{rel}{}", tuple_lit(&t)), effect: Effect::Delete { rel, tuples: vec![t] } });
+            }
+            8..=13 => {
+                let (name, text) = *rw.pick(P_RULES);
+                ops.push(HOp::Program { kg: kg.clone(), text: format!("+{text}"), effect: Effect::Rule { name: name.into(), text: text.into() } });
+            }
+            14 => {
+                let name = rw.pick(&["d0", "d1", "d2", "tc"]).to_string();
+                ops.push(HOp::Program { kg: kg.clone(), text: format!(".rule drop {name}"), effect: Effect::DropRule { name } });
+            }
+            15 => {
+                let name = rw.pick(&["d0", "d2", "tc"]).to_string();
+                let index = rw.range(1, 2) as usize;
+                ops.push(HOp::Program { kg: kg.clone(), text: format!(".rule remove {name} {index}"), effect: Effect::RemoveClause { name, index } });
+            }
+            16 => {
+                let name = rw.pick(&["d0", "d1"]).to_string();
+                ops.push(HOp::Program { kg: kg.clone(), text: format!(".rule clear {name}"), effect: Effect::ClearRule { name } });
+            }
+            17 if flavour == 1 => ops.push(HOp::Restart),
+            17 => ops.push(HOp::IncrRead { kg: kg.clone(), rel: rw.pick(&["f", "g"]).to_string() }),
+            18 if flavour == 1 => {
+                // inline program: the same clauses permuted and partly repeated
+                let k = rw.range(2, 4) as usize;
+                let mut rules: Vec<String> = (0..k).map(|_| rw.pick(P_RULES).1.replace("d0", "q0").replace("d1", "q1").replace("d2", "q2").replace("tc", "qt").replace("cnt", "qc")).collect();
+                let mut canon = rules.clone();
+                canon.sort();
+                canon.dedup();
+                if rw.chance(1, 2) {
+                    let dup = rules[0].clone();
+                    rules.push(dup);
+                }
+                rules.reverse();
+                let q = rw.pick(&["?q0(X, Y)", "?q1(X, Y)", "?qt(X, Y)", "?q2(X, Y)"]).to_string();
+                ops.push(HOp::RequestLocal { kg: kg.clone(), facts: vec![], rules, query: q, canon_rules: Some(canon) });
+            }
+            18 => ops.push(HOp::IncrRead { kg: kg.clone(), rel: "f".into() }),
+            _ => ops.push(HOp::Query { kg: kg.clone(), text: rw.pick(P_QUERIES).to_string() }),
+        }
+        if rw.chance(1, 3) {
+            ops.push(HOp::Query { kg: kg.clone(), text: rw.pick(P_QUERIES).to_string() });
+        }
+    }
+    ops.push(HOp::Query { kg: kg.clone(), text: rw.pick(P_QUERIES).to_string() });
+    if flavour == 0 {
+        ops.push(HOp::IncrRead { kg: kg.clone(), rel: "f".into() });
+        ops.push(HOp::IncrRead { kg: kg.clone(), rel: "g".into() });
+    }
+    let mut cfg = swarm_cfg(&mut rc, true);
+    cfg.num_threads = *rc.pick(&[1usize, 1, 2]);
+    HCase { seed, cfg, idle_timeout_secs: 3600, ops, check_reports: false, use_async: false }
+}
